@@ -55,8 +55,8 @@ def refdiff(p):
     desc, n, mode = p['desc'], p['n'], p.get('mode', 'per_t')
     sig = ints('v', n)
     pre = []
-    if p.get('lo') is not None:
-        pre += rng([a for a, _ in sig], p['lo'], p['hi'])
+    lo, hi = p.get('lo', -2 ** 40), p.get('hi', 2 ** 40)   # int64 accumulators (array('q') state) stay in range: overflow is outside every claim
+    pre += rng([a for a, _ in sig], lo, hi)
     if p.get('nondecr'):
         pre += ['%s <= %s' % (sig[i][0], sig[i + 1][0]) for i in range(n - 1)]
         if n:
